@@ -199,6 +199,26 @@ pub fn check_history(ctx: &mut Ctx, start: &Pos, src: &mut MoveSource, max_plies
         m.push_move(mv);
         *counts.entry(gen::rep_key(&m.pos)).or_insert(0) += 1;
         moves.push(mv);
+        // attempts at moves that are not legal now and then (a pure function of start and ply):
+        // they are refused, leave no trace in the log and change nothing about what can be claimed
+        let ha = fp(&(start, moves.len(), "illegal-attempt"));
+        if ha % 4 == 0 {
+            let occupied: Vec<Sq> = (0..64u8).filter(|s| matches!(m.pos.at(*s), Some((c, _)) if c == m.pos.stm)).collect();
+            if !occupied.is_empty() {
+                let from = occupied[(ha >> 8) as usize % occupied.len()];
+                let to = ((ha >> 20) % 64) as u8;
+                let promo = if (ha >> 30) % 8 == 0 { Some(Kind::Q) } else { None };
+                let bad = Mv::new(from, to, promo);
+                if !m.pos.legal_moves().contains(&bad) {
+                    ctx.count("illegal_move_attempts", 1);
+                    if g.make_move(bridge::mv(bad)) {
+                        // acceptance of moves is C10's business; the history ends here
+                        ctx.count("illegal_move_accepted_by_game", 1);
+                        break;
+                    }
+                }
+            }
+        }
         // unanswered draw offers now and then (a pure function of start and ply, so a replay
         // repeats them): they are actions in the log but neither moves nor grounds for a claim
         let h = fp(&(start, moves.len(), "offer"));
@@ -263,7 +283,7 @@ pub fn run(cfg: &Cfg) -> i32 {
     engine::finish(
         report,
         EvidenceSpec {
-            rule: "cases = game histories of 100-260 half-moves played inside a Game under policies that avoid pawn moves and captures (never creating a third occurrence / seeking repetitions / plain reversible; 1 ply in 32 is unconstrained), with unanswered draw offers interleaved (about one half-move in six), from positions with castling rights to lose (games loaded from text carry generated clocks and, where a standard writer would put one, an uncapturable en-passant square), bare-piece endgames, the initial position and generated valid positions; after every half-move can_declare_draw() is compared with the draw model (no result, and >= 3 occurrences of the current position in the whole game or >= 100 half-moves without pawn move or capture) and declare_draw() on a copy of the game must return the same answer, append DeclareDraw / set DrawDeclared / refuse all further actions on success and change nothing on refusal; on further copies a pending offer is accepted and a side resigns, after which no claim may succeed. evaluations = query points. Non-trivial = history with >= 90 consecutive reversible half-moves, a threefold occurrence, or a castling right lost inside a counted stretch of >= 20; distinct = history fingerprints.".into(),
+            rule: "cases = game histories of 100-260 half-moves played inside a Game under policies that avoid pawn moves and captures (never creating a third occurrence / seeking repetitions / plain reversible; 1 ply in 32 is unconstrained), with unanswered draw offers (about one half-move in six) and refused attempts at illegal moves (one in four) interleaved, from positions with castling rights to lose (games loaded from text carry generated clocks and, where a standard writer would put one, an uncapturable en-passant square), bare-piece endgames, the initial position and generated valid positions; after every half-move can_declare_draw() is compared with the draw model (no result, and >= 3 occurrences of the current position in the whole game or >= 100 half-moves without pawn move or capture) and declare_draw() on a copy of the game must return the same answer, append DeclareDraw / set DrawDeclared / refuse all further actions on success and change nothing on refusal; on further copies a pending offer is accepted and a side resigns, after which no claim may succeed. evaluations = query points. Non-trivial = history with >= 90 consecutive reversible half-moves, a threefold occurrence, or a castling right lost inside a counted stretch of >= 20; distinct = history fingerprints.".into(),
             assumptions: vec![
                 "position identity is computed twice (strict: en-passant state recorded; FIDE: en-passant only when a capture is legal); points where the two disagree are counted and not asserted".into(),
                 "reference rules engine and game model".into(),
